@@ -344,6 +344,33 @@ fn seeded_case(job: &Job) {
 fn sizes_case(job: &Job) {
     let n = job.u("n");
     let seed = job.u("seed") as u64;
+    if job.b("regression") {
+        // row-count family of the regressor: fit on n rows, predict all n rows in one call (n up to
+        // 120 crosses any internal block size), 2 target patterns, 2 trees, keep_samples
+        let rows: Vec<Vec<f64>> = (0..n).map(|i| vec![i as f64]).collect();
+        let pat = mc::choose(2);
+        let y: Vec<f64> = (0..n).map(|i| if pat == 0 { ((i * 7) % n) as f64 * 0.5 } else { (i % 5) as f64 - 2.0 }).collect();
+        let n_trees = 1 + mc::choose(2);
+        let x: DM = dm(&rows);
+        let q = rows.clone();
+        let ctx = format!("row-count family n={} targets pattern {} regressor seed={} n_trees={} keep_samples=true, {} query rows", n, pat, seed, n_trees, q.len());
+        let site = "forest.regressor:row-counts";
+        match mc::guard(|| fit_regressor(&x, &y, &q, rparams(LIMITS[0], n_trees, None, true, seed))) {
+            Ok(Ok(o)) => {
+                check_regressor(site, &ctx, &rows, &y, n_trees, true, &o, &q);
+                mc::count("row_count_fits_regressor");
+                if n > 64 {
+                    mc::count("row_count_fits_regressor_above_64_rows");
+                }
+                mc::nontrivial();
+                mc::outcome(mc::hash::h_f64s(&o.pred));
+                mc::describe(|| json!({"op": "forest fit (seeded RNG), row-count family", "context": ctx}));
+            }
+            Ok(Err(e)) => mc::violation(format!("{}:error", site), format!("{}: {}", ctx, e)),
+            Err(p) => mc::violation(format!("{}:panic", site), format!("{}: {}", ctx, p.brief())),
+        }
+        return;
+    }
     // layouts: 0..n-2 -> two classes (c = layout+1 rows of the first); n-1.. -> three classes
     let layouts = (n - 1) + 3;
     let l = mc::choose(layouts);
@@ -356,7 +383,8 @@ fn sizes_case(job: &Job) {
             _ => vec![n - 2, 1, 1],
         }
     };
-    let labels = [-3.0, 7.0, 10.0];
+    // integer-valued labels, or fractional labels that share their integer parts
+    let labels = [[-3.0, 7.0, 10.0], [0.25, 0.75, 1.5]][mc::choose(2)];
     let mut y: Vec<f64> = Vec::new();
     for (ci, sz) in sizes.iter().enumerate() {
         y.extend(std::iter::repeat(labels[ci]).take(*sz));
@@ -372,7 +400,7 @@ fn sizes_case(job: &Job) {
     let n_trees = 2usize;
     let x: DM = dm(&rows);
     let q = rows.clone();
-    let ctx = format!("class-size family n={} class sizes {:?}{} classifier seed={} n_trees={} keep_samples=true", n, sizes, if interleave { " (interleaved rows)" } else { "" }, seed, n_trees);
+    let ctx = format!("class-size family n={} class sizes {:?} labels {:?}{} classifier seed={} n_trees={} keep_samples=true", n, sizes, &labels[..sizes.len()], if interleave { " (interleaved rows)" } else { "" }, seed, n_trees);
     let site = "forest.classifier:class-sizes";
     match mc::guard(|| fit_classifier(&x, &y, &q, cparams(0, LIMITS[0], n_trees, None, true, seed))) {
         Ok(Ok(o)) => {
@@ -535,6 +563,7 @@ impl Harness for C06 {
         for n in 4..=120usize {
             for sd in 0..(if t { 4usize } else { 1 }) {
                 jobs.push(Job::new(format!("sizes-n{}-s{}", n, sd), json!({"kind": "sizes", "n": n, "seed": seed0 as usize + sd})));
+                jobs.push(Job::new(format!("sizes-reg-n{}-s{}", n, sd), json!({"kind": "sizes", "regression": true, "n": n, "seed": seed0 as usize + sd})));
             }
         }
         jobs.insert(0, Job::new("builders", json!({"kind": "builders"})));
@@ -548,12 +577,13 @@ impl Harness for C06 {
             jobs,
             budget_s: if t { 2400 } else { 40 },
             case_deadline_ms: 20_000,
-            floors: vec![("builder_chains", 5), ("entry_cases", 1000), ("seeded_fits", 10_000), ("bootstrap_schedules", 10_000), ("feature_shuffles_explored", 1000), ("oob_rows_checked", 10_000), ("oob_rows_partial", 1000), ("rows_with_disagreeing_trees", 1000), ("class_size_fits", 10_000), ("class_size_fits_singleton_class", 500)],
+            floors: vec![("builder_chains", 5), ("entry_cases", 1000), ("seeded_fits", 10_000), ("bootstrap_schedules", 10_000), ("feature_shuffles_explored", 1000), ("oob_rows_checked", 10_000), ("oob_rows_partial", 1000), ("rows_with_disagreeing_trees", 1000), ("class_size_fits", 10_000), ("class_size_fits_singleton_class", 500), ("row_count_fits_regressor", 400), ("row_count_fits_regressor_above_64_rows", 200)],
             bounds: json!({
                 "builders": mc_sc::builders::BOUNDS,
                 "entry_paths": mc_sc::entry::BOUNDS,
                 "seeded": format!("7 lattice data sets x {{classifier, regressor}} x seeds {}..{} x n_trees {{1,2,3,5,10,30}} x m in {{None,1..p}} x 6 (max_depth, min_samples_leaf, min_samples_split) settings x keep_samples x 3 criteria", seed0, seed0 as usize + nseeds),
-                "class_sizes": "classifier, p=1 distinct values: every n in 4..=120 x every two-class split (c, n-c), c=1..n-1, and three layouts with singleton classes, rows contiguous or interleaved, 2 trees, keep_samples (1 seed quick, 4 thorough): stratification and all other classifier clauses",
+                "row_counts_regressor": "regressor, p=1: every n in 4..=120 x 2 target patterns x n_trees in {1,2}, all n training rows predicted in one call (mean of member trees, target range, OOB)",
+                "class_sizes": "classifier, p=1 distinct values: every n in 4..=120 x every two-class split (c, n-c), c=1..n-1, and three layouts with singleton classes, rows contiguous or interleaved, integer labels {-3,7,10} or fractional labels {0.25,0.75,1.5} that share integer parts, 2 trees, keep_samples (1 seed quick, 4 thorough): stratification and all other classifier clauses",
                 "bootstrap": "n=4 rows (2+2 classes / 2 target vectors), 3 layouts per p in {1,2}, n_trees in {1,2}, m in {p, 1}: EVERY bootstrap outcome (16 per classifier tree, 256 per regressor tree) and every feature-subsampling shuffle",
             }),
         }
